@@ -43,6 +43,13 @@ def main() -> int:
         patch = sdir / "patch.diff"
         prop = name.split("-")[0]
         entry = {"property": prop, "repo_head": head}
+        meta0 = json.loads((sdir / "meta.json").read_text()) if (sdir / "meta.json").exists() else {}
+        if meta0.get("retired"):  # a later fix: commit made this change harmless (it no longer breaks the property)
+            entry["status"] = "retired"
+            entry["reason"] = meta0["retired"]
+            table[name] = entry
+            print(name, "retired", flush=True)
+            continue
         if sh("git", "-C", TREE, "apply", "--check", str(patch)).returncode != 0:
             entry["status"] = "patch does not apply to /repo HEAD"
             table[name] = entry
@@ -76,7 +83,7 @@ def main() -> int:
             meta["needs_to_manifest"] = (m.group(2).strip() if m else "see notes.md")
         meta_path.write_text(json.dumps(meta, indent=1) + "\n")
     path.write_text(json.dumps(table, indent=1, sort_keys=True) + "\n")
-    missed = [n for n, e in table.items() if e.get("status") != "detected"]
+    missed = [n for n, e in table.items() if e.get("status") not in ("detected", "retired")]
     print("not detected / not applicable:", missed)
     return 0
 
